@@ -1558,8 +1558,11 @@ class Store:
                 self.apply_update(update_value, state)
             return _EMPTY_UPDATES
 
-        if self.inner or self.subschema:
-            # Branch update: this node has an inner
+        if self.inner or self.subschema or (
+                not self.leaf and self.value is None
+                and isinstance(update, dict)):
+            # Branch update: this node has an inner (or it is a branch
+            # whose last child was removed: it stays a branch)
             process_updates = []
             step_updates = []
             flow_updates = []
